@@ -230,3 +230,7 @@ pub open spec fn let_annotation_import_checked(e: hir::Expr) -> bool {
 }
 
 #[verifier::external_body] pub fn path_clone(p: &ast::Path) -> (r: ast::Path) ensures r == *p { unimplemented!() }          // derived Clone: an identical copy
+
+// C16: the written type of every parameter of a function went through the import-checking lowering (lower_type_expr)
+pub open spec fn params_import_checked(ps: Seq<(hir::LocalId, hir::TypeExpr)>) -> bool { forall|i: int| 0 <= i < ps.len() ==> import_checked((#[trigger] ps[i]).1) }
+#[verifier::external_body] pub fn type_expr_into(ty: &ast::TypeExpr) -> (r: hir::TypeExpr) { unimplemented!() }      // `From<&ast::TypeExpr> for hir::TypeExpr`: the conversion WITHOUT the import gate
